@@ -105,6 +105,9 @@ func (p *proc) rawLine() string {
 			p.dead = true
 			return "(error \"solver died\")"
 		}
+		if p.log != nil {
+			io.WriteString(p.log, "; <- "+l)
+		}
 		return l
 	case <-time.After(p.timeout):
 		p.dead = true
@@ -183,6 +186,28 @@ type Session struct {
 
 func (w *Worker) newSession() *Session {
 	s := &Session{w: w, emitted: map[int]bool{}, ufs: map[string]bool{}}
+	// z3 4.8.12 degrades over a long push/pop session (get-value after
+	// thousands of popped definitions takes seconds): use a fresh process
+	// every so many paths.
+	w.z3uses++
+	if w.z3uses > 150 || w.z3.dead {
+		name := w.z3.name
+		w.z3.close()
+		np, err := startProc(name, w.ex.opt.TimeoutMs)
+		if err != nil {
+			panic(engineBug{"cannot restart solver: " + err.Error()})
+		}
+		w.z3 = np
+		w.z3uses = 0
+	}
+	if w.cvc5 != nil {
+		w.cvcuses++
+		if w.cvcuses > 150 || w.cvc5.dead {
+			w.cvc5.close()
+			w.cvc5 = nil
+			w.cvcuses = 0
+		}
+	}
 	s.cur = w.z3
 	s.cur.send("(push 1)")
 	s.open = true
